@@ -36,4 +36,22 @@ CHECKS = {
               "token lists on {~,/,0,1,a} and replayed on jsontext.Pointer."),
         note="Relational error predicates admit every position the property's wording admits; encoder positions are compared in C06's check; SemanticError positions in C03/C14 checks when built.",
         design_ref="5 (C16), 4.2"),
+    "C06": dict(
+        technique="TLA+ Encoder state machine with rendered output; TLC invariant 'rendered output parses to exactly the model's frames'; exhaustive replay of TLC-enumerated WriteToken/WriteValue programs x option sets; TLC trace validation of long random programs",
+        text=("Encoder.tla defines acceptance of each WriteToken/WriteValue call by the grammar automaton (token order, string-only unique names, balanced delimiters, depth, "
+              "well-formed UTF-8, well-formed raw values) and the bytes it renders under the formatting options; a rejected call is a stuttering step. TLC checks on every "
+              "reachable state that the output is a viable JSON stream prefix whose byte-level parse has the model's frames, and emits all programs of length <= 3 over 28 calls "
+              "(<= 4/5 over 16) x 12 option sets with the predicted outcome, offsets, stack and output. The harness replays them on a plain writer and a bytes.Buffer; rejected "
+              "calls are followed by further calls so that a missed rollback shows up later. Random programs of up to 400 calls are validated by TLC (Trace_Encoder)."),
+        note="Bounded-exhaustive plus sampled; number token text is given by the alphabet (formatting is C10); CanonicalizeRaw* only on numbers the spec decides.",
+        design_ref="5 (C06), 4.3"),
+    "C07": dict(
+        technique="TLC trace validation of Encoder executions over scripted short-writing/failing writers and bytes.Buffer against the Encoder model's fault-free output",
+        text=("Every call of random programs (up to 400 calls, outputs sweeping the 64..4096 buffer thresholds) is logged with its result, OutputOffset, stack and the number of "
+              "bytes the writer has accepted; the writer follows a script of full, short and failing Writes. TLC (Trace_Encoder) requires: a grammar-accepted call fails only with "
+              "the injected I/O error and stays accepted; delivered bytes are always a prefix of the model's fault-free output (nothing lost or duplicated, newline included); an "
+              "accepted call returning to depth 0 without a fault has flushed everything. Marshal vs MarshalWrite vs MarshalEncode with retracted omitempty members is validated "
+              "by Trace_Arshal (C02's driver logs all three outputs)."),
+        note="Flush policy is left open (only prefix / flushed-at-depth-0 are required); sampled schedules, not exhaustive.",
+        design_ref="5 (C07), 4.3"),
 }
